@@ -90,6 +90,8 @@ struct SubRef {
     items: BTreeMap<u32, ItemRef>, // by item id
     next_item: u32,
     has_links: bool,
+    /// ResendData was called and no timer tick has passed since: the flag also covers items created meanwhile
+    resend_pending: bool,
 }
 
 struct R {
@@ -150,6 +152,7 @@ impl Runner for R {
                         items: BTreeMap::new(),
                         next_item: 1,
                         has_links: false,
+                        resend_pending: false,
                     },
                 );
             }
@@ -166,18 +169,19 @@ impl Runner for R {
             Observed::ItemCreated { sub_id, handle, node, item_id } => {
                 if let (Some(iid), Some(s)) = (item_id, self.subs.get_mut(sub_id)) {
                     let reporting = toks[6] == "2";
+                    let pending = s.resend_pending;
                     s.items.insert(
                         *iid,
                         ItemRef {
                             handle: *handle,
                             node: *node,
-                            exact: reporting && toks[7] == "-",
+                            exact: reporting && toks[7] == "-" && !pending,
                             reporting,
                             last_sampled: None,
                             undelivered: VecDeque::new(),
                             hist_pos: 0,
                             delivered_any: false,
-                            loose: false,
+                            loose: pending,
                             ever_reportable: reporting || (toks[6] == "1" && s.has_links),
                             mode: if reporting { 2 } else if toks[6] == "1" { 1 } else { 0 },
                             old_handles: Vec::new(),
@@ -243,6 +247,7 @@ impl Runner for R {
             Observed::Resend(sub_id, ok) => {
                 if *ok {
                     if let Some(s) = self.subs.get_mut(sub_id) {
+                        s.resend_pending = true;
                         for it in s.items.values_mut() {
                             it.exact = false;
                             it.loose = true;
@@ -265,6 +270,10 @@ impl Runner for R {
                 // "timer ticks (with publishing intervals elapsing or not)": an item that follows the
                 // publishing interval is sampled on the timer ticks on which the interval elapsed
                 for (id, s) in self.subs.iter_mut() {
+                    // every tick of the subscription consumes a pending ResendData (a publish request
+                    // may have consumed it earlier; keeping it until the next timer tick only makes the
+                    // reference less exact, never wrong)
+                    s.resend_pending = false;
                     // a subscription still in its Creating state (observed on the real object before
                     // the tick) is only started by this tick
                     if creating_before.contains(id) {
